@@ -195,6 +195,21 @@ fn flat_bfs_names(version: u16, names: &[&str], with_storage: bool, oracles: Ora
     BfsCfg { version, seed: "fresh".into(), ops, oracles, extra_paths: names[..n].iter().map(|s| format!("/{}", s)).collect(), max_depth: None, burst_len: 0, max_states: 50_000_000 }
 }
 
+/// Four one-mini-sector streams (seed s4x64) and every live sequence of releasing / re-taking mini
+/// sectors through them: the allocator's in-memory free list goes through every order that the
+/// depth allows (a BFS over images would rebuild it from the file at every step).
+fn mini_live_cfg(version: u16, depth: usize, oracles: Oracles) -> EnumCfg {
+    let mut ops = Vec::new();
+    for i in 0..4 {
+        let p = format!("/f0_{}", i);
+        ops.push(Op::SetLen(p.clone(), 0));
+        ops.push(Op::Append(p.clone(), 128));
+        ops.push(Op::Rewrite(p.clone(), 64));
+        ops.push(Op::RemoveStream(p));
+    }
+    EnumCfg { version, seed: "s4x64".into(), ops, depth, oracles, extra_paths: vec![], one_reopen: false, extend_refused: false }
+}
+
 fn c01(tier: &str, thorough: bool) -> i32 {
     // "reopen": a reached state that cannot be opened again (the property covers files "created fresh or reopened")
     let ctx = Ctx::new("C01", tier, level_mc(), "e1", &["model", "reopen"]);
@@ -222,6 +237,7 @@ fn c01(tier: &str, thorough: bool) -> i32 {
             "rewrite/remove on produced file",
             &EnumCfg { version: v, seed: "s2x100+d1+b5000".into(), ops: data_ops(&a), depth: 2, oracles: o, extra_paths: vec!["/s".into(), "/t".into()], one_reopen: false, extend_refused: false },
         );
+        add_enum(&ctx, &mut tot, "four one-mini-sector streams, live", &mini_live_cfg(v, if thorough { 5 } else { 4 }, o));
     }
     ctx.finish(tot.0, tot.1)
 }
@@ -337,6 +353,7 @@ fn c03(tier: &str, thorough: bool) -> i32 {
         add_enum(&ctx, &mut tot, "data", &EnumCfg { version: v, seed: "fresh".into(), ops: data_ops(&a), depth: if thorough { 3 } else { 2 }, oracles: o, extra_paths: vec![], one_reopen: false, extend_refused: false });
         // sizes at the mini-stream cutoff next to a mini stream that fills many mini sectors, with removals
         let cut = DataAlpha { paths: vec!["/s", "/t"], rewrite: vec![64, 4095, 4096, 4097], setlen: vec![4096], append: vec![], patch: vec![], remove: true };
+        add_enum(&ctx, &mut tot, "four one-mini-sector streams, live", &mini_live_cfg(v, if thorough { 5 } else { 4 }, o));
         add_enum(&ctx, &mut tot, "cutoff sizes", &EnumCfg { version: v, seed: "fresh".into(), ops: data_ops(&cut), depth: 3, oracles: o, extra_paths: vec![], one_reopen: false, extend_refused: false });
         let small = DataAlpha { paths: vec!["/s", "/t"], rewrite: vec![0, 65, 4096], setlen: vec![1, 4097], append: vec![64], patch: vec![(0, 4100)], remove: true };
         add_enum(&ctx, &mut tot, "data deep", &EnumCfg { version: v, seed: "fresh".into(), ops: data_ops(&small), depth: if thorough { 5 } else { 4 }, oracles: o, extra_paths: vec![], one_reopen: false, extend_refused: false });
